@@ -116,8 +116,12 @@ func checkIngestPacket(c *Ctx, prop string, wantLabel, wantAuth bool) {
 					return false, "ciphertext: " + untok(d["arg1"])
 				}
 				aad := untok(d["arg2"])
-				if aad != "[]byte("+rm+"#1)" && !(e.Cube["m.config.SkipInboundLabelCheck"] == "T" && aad == "[]byte(m.config.Label)") {
-					return false, "associated data: " + aad
+				want := "[]byte(" + rm + "#1)"
+				if e.Cube["m.config.SkipInboundLabelCheck"] == "T" {
+					want = "[]byte(m.config.Label)" // the received label is empty here; the node's own label is what senders sealed with
+				}
+				if aad != want {
+					return false, "associated data is " + aad + ", expected " + want
 				}
 				return true, ""
 			})
